@@ -259,7 +259,7 @@ def pricing_grid():
         ops.append("endblock dt=5000000000")
         out.append((f"grid:pricing:two-windows:{base}", ops))
     # amounts beyond 64 bits: a fee above 2^63 issued, answered (tax and earnings), expired (refund), withdrawn
-    huge, dep, rich = 10 ** 19 + 7, 2 * 10 ** 21 + 1400, 10 ** 24
+    huge, dep, rich = 2 ** 64 + 7, (2 ** 64 + 7) * 200 + 1400, 10 ** 25     # fee, and fee net of tax, above 2^63
     ops = [genesis(), f"fund acct={O1} amt={rich}", f"fund acct={C1} amt={rich}",
            f"define name=svc author={O1} schema=ok",
            f"bind svc=svc prov={P1} owner={O1} dep={dep} price={huge}stake promT=- promV=- qos=1",
@@ -297,6 +297,55 @@ def deposit_grid():
                             f"enable svc=svc prov={P1} owner={O1} dep={dep}"]
                 ops.append("endblock dt=5000000000")
                 out.append((f"grid:deposit:{how}:p{newp}:T{T}", ops))
+    return out
+
+
+def longrun_grid():
+    """a repeated context (timeout 1, frequency 1, unbounded) driven through more than 256 batches: one provider answers
+    every batch, the other never does (expiry, refund and slash every block); the per-batch scans are asked around batch
+    255 / 256, where the low byte of the big-endian batch counter wraps."""
+    cid = ctx_id(0xC55)
+    ops = [genesis(slash="10000000000000"), f"fund acct={O1} amt=1000000", f"fund acct={C1} amt=1000000",
+           f"define name=svc author={O1} schema=ok",
+           f"bind svc=svc prov={P1} owner={O1} dep=10000 price=2stake promT=- promV=- qos=1",
+           f"bind svc=svc prov={P2} owner={O1} dep=10000 price=3stake promT=- promV=- qos=1",
+           f"call tx={tx(0xC55)} idx=0 svc=svc provs={P1},{P2} cons={C1} cap=10 timeout=1 super=0 rep=1 freq=1 total=-1 input=ok"]
+    for k in range(1, 259):
+        ops.append("endblock dt=5000000000")
+        ops.append(f"respond req={req_id(0xC55, k, k, 0)} prov={P1} code=200 out=valid")
+        if k in (254, 255, 256, 257):
+            for via in ("grpc", "legacy"):
+                for b in (k - 1, k, k + 1):
+                    ops.append(f"query via={via} kind=responses ctx={cid} batch={b}")
+                    ops.append(f"query via={via} kind=requests_by_ctx ctx={cid} batch={b}")
+                ops.append(f"query via={via} kind=requests svc=svc prov={P2}")
+            ops.append(f"query via=client kind=request req={req_id(0xC55, k, k, 1)}")
+    ops += ["endblock dt=5000000000", f"withdraw owner={O1} prov=-", "endblock dt=5000000000"]
+    return [("grid:longrun:258-batches", ops)]
+
+
+def prefix_grid():
+    """C05 / C13: two owners whose providers' addresses are byte-prefixes of each other (P, and P followed by one more
+    byte), both with earnings: per-provider withdrawals by the wrong owner, then by the right one, then whole-owner ones."""
+    O2 = "0a" * 20
+    PQ = P1 + "01"
+    out = []
+    base = [genesis(), f"fund acct={O1} amt=1000000", f"fund acct={O2} amt=1000000", f"fund acct={C1} amt=100000",
+            f"define name=svc author={O1} schema=ok",
+            f"bind svc=svc prov={P1} owner={O1} dep=10000 price=5stake promT=- promV=- qos=1",
+            f"bind svc=svc prov={PQ} owner={O2} dep=10000 price=20stake promT=- promV=- qos=1",
+            f"call tx={tx(0xC13)} idx=0 svc=svc provs={P1},{PQ} cons={C1} cap=100 timeout=2 super=0 rep=1 freq=2 total=2 input=ok",
+            "endblock dt=5000000000",
+            f"respond req={req_id(0xC13, 1, 1, 0)} prov={P1} code=200 out=valid",
+            f"respond req={req_id(0xC13, 1, 1, 1)} prov={PQ} code=200 out=valid",
+            "endblock dt=5000000000", "endblock dt=5000000000",
+            f"respond req={req_id(0xC13, 2, 3, 1)} prov={PQ} code=200 out=valid",
+            f"respond req={req_id(0xC13, 2, 3, 0)} prov={P1} code=200 out=valid"]
+    orders = [[f"withdraw owner={O2} prov={P1}", f"withdraw owner={O1} prov={PQ}", f"withdraw owner={O1} prov={P1}", f"withdraw owner={O2} prov={PQ}"],
+              [f"withdraw owner={O1} prov={PQ}", f"withdraw owner={O2} prov={P1}", f"withdraw owner={O2} prov=-", f"withdraw owner={O1} prov=-"],
+              [f"withdraw owner={O1} prov=-", f"withdraw owner={O2} prov={P1}", f"withdraw owner={O2} prov={PQ}"]]
+    for i, o in enumerate(orders):
+        out.append((f"grid:prefix:withdraw{i}", base + o + ["endblock dt=5000000000"]))
     return out
 
 
@@ -434,12 +483,14 @@ GRIDS = {
     "boundary": boundary_grid,
     "genesis": genesis_grid,
     "deposit": deposit_grid,
+    "longrun": longrun_grid,
+    "prefix": prefix_grid,
 }
 
 # which grids each property runs
 FOR_PROPERTY = {
-    "C01": ["respond", "pricing"], "C02": ["respond", "lifecycle", "pricing"], "C04": ["respond"], "C08": ["respond", "module"], "C14": ["deposit"], "C03": ["deposit"],
+    "C01": ["respond", "pricing"], "C05": ["prefix"], "C13": ["prefix"], "C02": ["respond", "lifecycle", "pricing"], "C04": ["respond"], "C08": ["respond", "module"], "C14": ["deposit"], "C03": ["deposit"],
     "C09": ["lifecycle"], "C10": ["lifecycle"], "C11": ["lifecycle", "respond"], "C12": ["module", "respond"],
-    "C16": ["lifecycle", "respond"], "C06": ["respond", "pricing", "module"], "C18": ["respond", "query"], "C20": ["lifecycle", "boundary"], "C19": ["genesis"],
-    "C17": ["query"], "C15": ["query"], "C07": ["pricing", "respond"],
+    "C16": ["lifecycle", "respond", "longrun"], "C06": ["respond", "pricing", "module"], "C18": ["respond", "query", "longrun"], "C20": ["lifecycle", "boundary", "pricing"], "C19": ["genesis"],
+    "C17": ["query", "longrun"], "C15": ["query"], "C07": ["pricing", "respond"],
 }
